@@ -140,3 +140,99 @@ def run(case):
         for m, t in saved:
             m.time = t
     return res
+
+
+# ------------------------------------------------------------------------------
+# submission vs. the first notifications: a pilot whose launch fails (or which is canceled)
+# at once is final - a wait on it returns
+#
+@st.composite
+def submit_cases(draw):
+    return {'kind': 'submit_then_wait',
+            'n': draw(st.integers(1, 3)),
+            'script': draw(st.sampled_from([['PMGR_LAUNCHING', 'FAILED'], ['FAILED'], ['CANCELED'],
+                                            ['PMGR_LAUNCHING', 'PMGR_ACTIVE_PENDING', 'PMGR_ACTIVE', 'DONE'],
+                                            ['PMGR_LAUNCHING', 'CANCELED']])),
+            'when': draw(st.sampled_from(['at_hand_over', 'at_hand_over', 'after_submit'])),
+            'api': draw(st.sampled_from(['wait_pilots', 'Pilot.wait'])),
+            'timeout': draw(st.sampled_from([0.5, 2.0]))}
+
+
+def run_submit(case):
+    """real PilotManager.submit_pilots on the hollow manager; the launcher's reaction (state
+    notifications through the real _state_sub_cb) arrives either right when the pilots are handed
+    over - the subscriber thread may run before the submitting thread continues - or after
+    submit_pilots returned.  Either way the pilots are final afterwards and a wait returns at once."""
+    import radical.utils as ru
+    import radical.pilot.constants as rpc
+    res = CaseResult()
+    res.label('submit_then_wait', 'submit_then_wait:%s' % case.get('when'))
+    sess = HollowSession()
+    pm   = hollow_pmgr(sess)
+    try:
+        pm.register_output(rps.PMGR_LAUNCHING_PENDING, rpc.PMGR_LAUNCHING_QUEUE)
+    except Exception:
+        pass
+    script = [s for s in (case.get('script') or ['FAILED']) if isinstance(s, str)]
+    final  = script[-1]
+    at_hand_over = case.get('when') != 'after_submit'
+
+    def react(things):
+        for t in ru.as_list(things):
+            for s in script:
+                pm._state_sub_cb(rpc.STATE_PUBSUB, {'cmd': 'update',
+                                 'arg': [{'uid': t['uid'], 'type': 'pilot', 'state': s}]})
+
+    orig = pm.advance
+    handed = []
+
+    def advance(things, state=None, publish=True, push=False, **kw):
+        r = orig(things, state=state, publish=publish, push=push, **kw)
+        if push:
+            handed.extend(ru.as_list(things))
+            if at_hand_over:
+                react(things)
+        return r
+    pm.advance = advance
+
+    saved = [(m, m.time) for m in (m_pmgr, m_pilot)]
+    baton = Baton()
+    try:
+        for m, _ in saved:
+            m.time = FakeTime(baton)
+        n = max(1, min(3, int(case.get('n') or 1)))
+        pds = [rp.PilotDescription({'resource': 'local.localhost', 'cores': 1, 'runtime': 10,
+                                    'exit_on_error': False}) for _ in range(n)]
+        try:
+            pilots = pm.submit_pilots(pds)
+        except Exception as e:          # noqa
+            res.fail(exc_sig('submit_pilots_raised', e), repr(e))
+            return res
+        if not at_hand_over:
+            react(handed)
+        res.nontrivial = True
+        t0 = baton.now
+        to = float(case.get('timeout') or 0.5)
+        try:
+            if case.get('api') == 'Pilot.wait':
+                got = [p.wait(timeout=to) for p in pilots]
+            else:
+                got = pm.wait_pilots([p.uid for p in pilots], timeout=to)
+        except Exception as e:          # noqa
+            res.fail(exc_sig('wait_raised:after_submit', e), repr(e))
+            return res
+        waited = baton.now - t0
+        states = [p.state for p in pilots]
+        if any(s != final for s in states):
+            res.fail('pilot_not_final_after_its_final_notification:%s' % case.get('when'),
+                     'notified %s, pilot states %s' % (script, states))
+        elif waited > 0.3:
+            res.fail('late_or_never:%s:after_submit' % case.get('api'),
+                     'all pilots are final, the call took %.1f virtual seconds' % waited)
+        elif any(g is not None and g != s for g, s in zip(ru.as_list(got), states)):
+            # (None from Pilot.wait claims nothing)
+            res.fail('wrong_value:%s:after_submit' % case.get('api'), '%s vs %s' % (got, states))
+    finally:
+        for m, t in saved:
+            m.time = t
+    return res
